@@ -87,44 +87,55 @@ func BFS[Op any](c BFSConfig[Op]) BFSResult[Op] {
 				break
 			}
 		}
-		// 1. enabled operations of every frontier state
-		alph := make([][]Op, len(frontier))
-		parallelDo(c.Workers, len(frontier), func(i int) { alph[i] = c.Alphabet(frontier[i]) })
-		// 2. successors
-		var succ [][]Op
-		for i, h := range frontier {
-			for _, op := range alph[i] {
-				succ = append(succ, append(append(make([]Op, 0, len(h)+1), h...), op))
-			}
-		}
-		keys := make([]string, len(succ))
-		parallelDo(c.Workers, len(succ), func(i int) { keys[i] = c.Canon(succ[i]) })
-		// 3. merge in canonical order
+		// the level is processed in chunks of frontier states (bounded memory); successors are merged in canonical order
 		var next [][]Op
 		full := false
-		for i, k := range keys {
-			if k == "" {
-				continue
+		const chunk = 512
+		for lo := 0; lo < len(frontier) && !full; lo += chunk {
+			hi := lo + chunk
+			if hi > len(frontier) {
+				hi = len(frontier)
 			}
-			res.Transitions++
-			if _, seen := res.Keys[k]; seen {
-				continue
+			part := frontier[lo:hi]
+			// 1. enabled operations of every frontier state
+			alph := make([][]Op, len(part))
+			parallelDo(c.Workers, len(part), func(i int) { alph[i] = c.Alphabet(part[i]) })
+			// 2. successors
+			var succ [][]Op
+			for i, h := range part {
+				for _, op := range alph[i] {
+					succ = append(succ, append(append(make([]Op, 0, len(h)+1), h...), op))
+				}
 			}
-			res.Keys[k] = struct{}{}
-			res.States++
-			if c.MaxDepth > 0 && depth >= c.MaxDepth {
-				res.StatesBeyondMaxDepth++
+			keys := make([]string, len(succ))
+			parallelDo(c.Workers, len(succ), func(i int) { keys[i] = c.Canon(succ[i]) })
+			// 3. merge in canonical order
+			var fresh [][]Op
+			for i, k := range keys {
+				if k == "" {
+					continue
+				}
+				res.Transitions++
+				if _, seen := res.Keys[k]; seen {
+					continue
+				}
+				res.Keys[k] = struct{}{}
+				res.States++
+				if c.MaxDepth > 0 && depth >= c.MaxDepth {
+					res.StatesBeyondMaxDepth++
+				}
+				res.Deepest, res.DeepestKey = succ[i], k
+				fresh = append(fresh, succ[i])
+				if c.MaxStates > 0 && res.States >= c.MaxStates {
+					full = true
+					break
+				}
 			}
-			res.Deepest, res.DeepestKey = succ[i], k
-			next = append(next, succ[i])
-			if c.MaxStates > 0 && res.States >= c.MaxStates {
-				full = true
-				break
+			// 4. observers on the new states
+			if c.Visit != nil {
+				parallelDo(c.Workers, len(fresh), func(i int) { c.Visit(fresh[i]) })
 			}
-		}
-		// 4. observers on the new states
-		if c.Visit != nil {
-			parallelDo(c.Workers, len(next), func(i int) { c.Visit(next[i]) })
+			next = append(next, fresh...)
 		}
 		if full {
 			res.FixedPoint = false
